@@ -36,8 +36,7 @@ def specStep (o : Oracles) (cfg : FCfg) (e : Flat) : List Flat :=
     | v => [⟨e.pre, (applyFilter o f ⟨e.key, e.val⟩).key, v, false⟩]
 
 mutual
-/-- no filter is configured on the path of an object (explicit, decidable exclusion: see
-    `fenc_object_filter_full_fails`) -/
+/-- no filter is configured on the path of an object (then the flat view of the output is a `flatMap`) -/
 def noObjFilterNode (cfg : FCfg) (pre : Bytes) : Node → Bool
   | .leaf _ _ => true
   | .obj k kids => (lookupF cfg (pre ++ k)).isNone && noObjFilterList cfg (pre ++ k ++ pathSep) kids
@@ -101,32 +100,77 @@ theorem filter_encoder_is_per_path_filtering (o : Oracles) (cfg : FCfg) (fields 
     flat3List [] (filterEncode o cfg fields) = (flat3List [] fields).flatMap (specStep o cfg) :=
   flat3_encList o cfg [] fields h
 
-/-- every field of the encoded entry is an input field that has no filter on its path, unchanged, or the
-    result of the filter configured on the path of an input field -/
-theorem fenc_field_is_original_or_filtered (o : Oracles) (cfg : FCfg) (fields : List Node)
-    (h : noObjFilterList cfg [] fields = true) :
-    ∀ e' ∈ flat3List [] (filterEncode o cfg fields), ∃ e ∈ flat3List [] fields,
-      (e' = e ∧ (e.isObj = true ∨ lookupF cfg (e.pre ++ e.key) = none)) ∨
-      (∃ f, e.isObj = false ∧ lookupF cfg (e.pre ++ e.key) = some f ∧
-        e' = ⟨e.pre, (applyFilter o f ⟨e.key, e.val⟩).key, (applyFilter o f ⟨e.key, e.val⟩).val, false⟩) := by
+/-- how an emitted field `e'` relates to the input field `e` it stems from: untouched when no filter is
+    configured on `e`'s ORIGINAL full path, otherwise the result of exactly that filter (for an object that
+    the filter kept: the object under the key the filter gave it) -/
+def StemsFrom (o : Oracles) (cfg : FCfg) (e e' : Flat) : Prop :=
+  (lookupF cfg (e.pre ++ e.key) = none ∧ e'.key = e.key ∧ e'.val = e.val ∧ e'.isObj = e.isObj) ∨
+  (∃ f, lookupF cfg (e.pre ++ e.key) = some f ∧ e'.key = (applyFilter o f ⟨e.key, e.val⟩).key ∧
+        ((e.isObj = true ∧ e'.isObj = true) ∨ e'.val = (applyFilter o f ⟨e.key, e.val⟩).val))
+
+theorem stems_emitLeaf (o : Oracles) (cfg : FCfg) (pre pre' k : Bytes) (v : FVal) (f : Filter)
+    (hl : lookupF cfg (pre ++ k) = some f) :
+    ∀ e' ∈ flat3List pre' (emitLeaf (applyFilter o f ⟨k, v⟩)), StemsFrom o cfg ⟨pre, k, v, false⟩ e' := by
   intro e' he'
-  rw [filter_encoder_is_per_path_filtering o cfg fields h] at he'
-  rcases List.mem_flatMap.mp he' with ⟨e, he, hs⟩
-  refine ⟨e, he, ?_⟩
-  unfold specStep at hs
-  split at hs
-  · rename_i hobj
-    simp at hs
-    exact Or.inl ⟨hs, Or.inl hobj⟩
-  · rename_i hobj
-    cases hl : lookupF cfg (e.pre ++ e.key) with
+  rw [flat3_emitLeaf] at he'
+  cases hv : (applyFilter o f ⟨k, v⟩).val <;> simp [hv] at he' <;> subst he' <;>
+    exact Or.inr ⟨f, hl, rfl, Or.inr hv.symm⟩
+
+mutual
+theorem stems_encNode (o : Oracles) (cfg : FCfg) : ∀ (pre pre' : Bytes) (n : Node),
+    ∀ e' ∈ flat3List pre' (encNode o cfg pre n), ∃ e ∈ flat3Node pre n, StemsFrom o cfg e e'
+  | pre, pre', .leaf k v => by
+    intro e' he'
+    simp only [encNode] at he'
+    cases hl : lookupF cfg (pre ++ k) with
     | none =>
-      simp [hl] at hs
-      exact Or.inl ⟨hs, Or.inr rfl⟩
+      simp [hl, flat3List, flat3Node] at he'
+      subst he'
+      exact ⟨⟨pre, k, v, false⟩, by simp [flat3Node], Or.inl ⟨hl, rfl, rfl, rfl⟩⟩
     | some f =>
-      simp only [hl] at hs
-      refine Or.inr ⟨f, by simpa using hobj, rfl, ?_⟩
-      cases hv : (applyFilter o f ⟨e.key, e.val⟩).val <;> simp [hv] at hs <;> rw [hs]
+      simp only [hl] at he'
+      exact ⟨⟨pre, k, v, false⟩, by simp [flat3Node], stems_emitLeaf o cfg pre pre' k v f hl e' he'⟩
+  | pre, pre', .obj k kids => by
+    intro e' he'
+    simp only [encNode] at he'
+    cases hl : lookupF cfg (pre ++ k) with
+    | none =>
+      simp only [hl, flat3List, flat3Node, List.append_nil, List.mem_cons] at he'
+      rcases he' with rfl | he'
+      · exact ⟨⟨pre, k, .other objTag, true⟩, by simp [flat3Node], Or.inl ⟨hl, rfl, rfl, rfl⟩⟩
+      · rcases stems_encList o cfg (pre ++ k ++ pathSep) (pre' ++ k ++ pathSep) kids e' he' with ⟨e, he, hs⟩
+        exact ⟨e, by simpa [flat3Node, List.append_assoc] using Or.inr he, hs⟩
+    | some f =>
+      simp only [hl, emitObj] at he'
+      cases hv : (applyFilter o f ⟨k, .other objTag⟩).val with
+      | skip => simp [hv, flat3List] at he'
+      | other t =>
+        simp only [hv, flat3List, flat3Node, List.append_nil, List.mem_cons] at he'
+        rcases he' with rfl | he'
+        · exact ⟨⟨pre, k, .other objTag, true⟩, by simp [flat3Node],
+            Or.inr ⟨f, hl, rfl, Or.inl ⟨rfl, rfl⟩⟩⟩
+        · rcases stems_encList o cfg (pre ++ k ++ pathSep) _ kids e' he' with ⟨e, he, hs⟩
+          exact ⟨e, by simpa [flat3Node, List.append_assoc] using Or.inr he, hs⟩
+      | str x =>
+        simp [hv, flat3List, flat3Node] at he'
+        subst he'
+        exact ⟨⟨pre, k, .other objTag, true⟩, by simp [flat3Node], Or.inr ⟨f, hl, rfl, Or.inr hv.symm⟩⟩
+      | arr x =>
+        simp [hv, flat3List, flat3Node] at he'
+        subst he'
+        exact ⟨⟨pre, k, .other objTag, true⟩, by simp [flat3Node], Or.inr ⟨f, hl, rfl, Or.inr hv.symm⟩⟩
+theorem stems_encList (o : Oracles) (cfg : FCfg) : ∀ (pre pre' : Bytes) (ns : List Node),
+    ∀ e' ∈ flat3List pre' (encList o cfg pre ns), ∃ e ∈ flat3List pre ns, StemsFrom o cfg e e'
+  | _, _, [] => by simp [encList, flat3List]
+  | pre, pre', n :: r => by
+    intro e' he'
+    simp only [encList, flat3List_append, List.mem_append] at he'
+    rcases he' with he' | he'
+    · rcases stems_encNode o cfg pre pre' n e' he' with ⟨e, he, hs⟩
+      exact ⟨e, by simp [flat3List, he], hs⟩
+    · rcases stems_encList o cfg pre pre' r e' he' with ⟨e, he, hs⟩
+      exact ⟨e, by simp [flat3List, he], hs⟩
+end
 
 /-- a field with a `delete` filter on its path contributes nothing, at any depth -/
 theorem fenc_delete_hides_at_any_depth (o : Oracles) (cfg : FCfg) (e : Flat) (ho : e.isObj = false)
@@ -153,17 +197,35 @@ end
 theorem fenc_no_config_identity (o : Oracles) (fields : List Node) : filterEncode o [] fields = fields :=
   encList_no_config o [] fields
 
-/-- FULL STATEMENT (false on the unchanged tree): `filter_encoder_is_per_path_filtering` without the
-    exclusion `noObjFilterList` — a filter configured on a field is applied wherever the field is nested.
-    Refuted: a filter that sits on the path of an OBJECT and keeps it (rename; hash / ip_mask / query /
-    regexp / cookie, which do not apply to objects) hands the object to the wrapped encoder directly, so
-    no filter configured on a path inside it runs: `request → rename rq` switches `request>uri → delete` off. -/
-theorem fenc_object_filter_full_fails :
+/-- **every field meets the filter of its own path, wherever it is nested** (full strength, no exclusion):
+    each field of the encoded entry stems from an input field and is either that field untouched — and then
+    no filter is configured on its original full path — or the result of exactly the filter configured on
+    that path; in particular a filter on an enclosing object (rename, or one that does not apply to objects)
+    does not switch the filters inside it off. -/
+theorem fenc_every_field_stems_from_its_path_filter (o : Oracles) (cfg : FCfg) (fields : List Node) :
+    ∀ e' ∈ flat3List [] (filterEncode o cfg fields), ∃ e ∈ flat3List [] fields, StemsFrom o cfg e e' :=
+  stems_encList o cfg [] [] fields
+
+/-- an object that its own filter keeps is emitted under the key the filter gave it, with the fields inside
+    encoded under the ORIGINAL key path -/
+theorem fenc_kept_object_still_filters_inside (o : Oracles) (cfg : FCfg) (pre k : Bytes) (kids : List Node)
+    (f : Filter) (t : Nat) (hl : lookupF cfg (pre ++ k) = some f)
+    (hk : (applyFilter o f ⟨k, .other objTag⟩).val = .other t) :
+    encNode o cfg pre (.obj k kids) =
+      [.obj (applyFilter o f ⟨k, .other objTag⟩).key (encList o cfg (pre ++ k ++ pathSep) kids)] := by
+  simp [encNode, hl, emitObj, hk]
+
+/-- Why fix 5e69734 was needed (non-vacuity of the object case of `fenc_every_field_stems_from_its_path_filter`):
+    the OLD dispatch handed an object that its own filter kept straight to the wrapped encoder, so no filter
+    configured on a path inside it ran: `request → rename rq` switched `request>uri → delete` off and the URI
+    was logged; the dispatch as it is now emits `rq{}`. -/
+theorem fenc_object_filter_old_code_fails :
     ∃ (o : Oracles) (cfg : FCfg) (fields : List Node) (secret : Bytes),
-      lookupF cfg (str "request>uri") = some .delete ∧ noObjFilterList cfg [] fields = false ∧
+      lookupF cfg (str "request>uri") = some .delete ∧
       flat3List [] fields = [⟨[], str "request", .other objTag, true⟩, ⟨str "request>", str "uri", .str secret, false⟩] ∧
-      flat3List [] (filterEncode o cfg fields) =
-        [⟨[], str "rq", .other objTag, true⟩, ⟨str "rq>", str "uri", .str secret, false⟩] :=
+      flat3List [] (encListOld o cfg [] fields) =
+        [⟨[], str "rq", .other objTag, true⟩, ⟨str "rq>", str "uri", .str secret, false⟩] ∧
+      flat3List [] (filterEncode o cfg fields) = [⟨[], str "rq", .other objTag, true⟩] :=
   ⟨⟨id, id, fun _ => none, fun _ => none, fun _ => [], fun _ => none, fun _ => [], fun _ => [], fun _ => []⟩,
    [(str "request", .rename (str "rq")), (str "request>uri", .delete)],
    [.obj (str "request") [.leaf (str "uri") (.str (str "SECRET"))]], str "SECRET", by decide⟩
@@ -188,5 +250,15 @@ example : flat3List [] (filterEncode exFO exCfg exEntry) =
      ⟨str "request>headers>", str "X", .arr [str "h1"], false⟩, ⟨[], str "status", .other 0, false⟩] := by decide
 example : listStrings (filterEncode exFO exCfg exEntry) =
     [str "request", str "uri", str "R", str "headers", str "X", str "h1", str "status"] := by decide
+
+-- a filter on the object itself: `request → rename rq`, `request>headers → hash` (kept), and the filters inside still run
+example : flat3List [] (filterEncode exFO ((str "request", .rename (str "rq")) :: (str "request>headers", .hash) :: exCfg) exEntry) =
+    [⟨[], str "rq", .other objTag, true⟩, ⟨str "rq>", str "uri", .str (str "R"), false⟩,
+     ⟨str "rq>", str "headers", .other objTag, true⟩,
+     ⟨str "rq>headers>", str "X", .arr [str "h1"], false⟩, ⟨[], str "status", .other 0, false⟩] := by decide
+-- delete / replace on the object remove it with everything inside
+example : listStrings (filterEncode exFO [(str "request", .delete)] exEntry) = [str "status"] ∧
+    listStrings (filterEncode exFO [(str "request>headers", .replace (str "-"))] exEntry) =
+      [str "request", str "uri", str "/x?token=S", str "headers", str "-", str "status"] := by decide
 
 end CaddyModel.C20
